@@ -467,6 +467,38 @@ func checkC02(c *Ctx) {
 	r.Rule("C02.12", "DTLS sessions are accepted only with a certificate signed by the secret-derived key", 1)
 	checkVerifyCert(c, "C02.12")
 
+	// ---- C02.15 "currently validated and unexpired": the transports are handed the registration manager itself, so every
+	// offer of the buffer looks the registrations up afresh - never a set fetched when the connection was accepted
+	r.Rule("C02.15", "the handler offers every transport the live registration manager (no per-connection snapshot)", 1)
+	if f := c.fn("C02.15", "cmd/application", "connManager", "handleNewTCPConn"); f != nil {
+		n := 0
+		var rmParam *ssa.Parameter
+		for _, prm := range f.Params {
+			if strings.HasSuffix(typeShort(prm.Type()), "lib.RegistrationManager") {
+				rmParam = prm
+			}
+		}
+		eachInstrDeep(f, 2, func(in ssa.Instruction, d deepCtx) {
+			call, ok := in.(*ssa.Call)
+			if !ok || !call.Call.IsInvoke() || call.Call.Method.Name() != "WrapConnection" || len(call.Call.Args) < 4 {
+				return
+			}
+			n++
+			arg := stripConv(call.Call.Args[3])
+			okk := rmParam != nil && (arg == ssa.Value(rmParam) || d.toRoot(pathOf(arg)) == pname(rmParam))
+			if !okk {
+				if prm, isP := arg.(*ssa.Parameter); isP && strings.HasSuffix(typeShort(prm.Type()), "lib.RegistrationManager") {
+					okk = true // a helper that is handed the manager
+				}
+			}
+			r.Check(okk, "C02.15", "handleNewTCPConn: WrapConnection is given the registration manager", call.Pos(), fnName(d.f), firstN(pathOf(arg), 50),
+				"the transports look registrations up in "+firstN(pathOf(arg), 50)+" instead of the live registration manager: a registration that expired (or was invalidated) after the connection was accepted is still matched and proxied")
+		})
+		if n == 0 {
+			r.Unk("C02.15", "handleNewTCPConn: WrapConnection call", f.Pos(), fnName(f), "not found")
+		}
+	}
+
 	// ---- C02.14 "unexpired for that same phantom": a match on one phantom extends the life of that phantom's record only
 	r.Rule("C02.14", "a matched connection marks only the record under the matched registration's own (phantom, identifier) key as used", 1)
 	checkMarkOwnRecord(c, "C02.14")
